@@ -282,7 +282,7 @@ def tok_of_value(v) -> str:
         return f"d{int(v.astype('datetime64[D]').astype(int)) + 719163}"
     if isinstance(v, (int, numpy.integer)):
         return str(int(v))
-    x = Fraction(float(v))
+    x = v if isinstance(v, Fraction) else Fraction(float(v))
     return str(x.numerator) if x.denominator == 1 else f"{x.numerator}/{x.denominator}"
 
 
@@ -417,6 +417,8 @@ class Ctx:
         self.v = variables
         self.periods = periods
         self.si = {"dispatch": holders.set_input_dispatch_by_period, "divide": holders.set_input_divide_by_period}
+        from openfisca_core import simulations
+        self.co = {"add": simulations.calculate_output_add, "divide": simulations.calculate_output_divide}
         self.protos = {}
         for i, k in enumerate(ent_keys):
             if i == 0:
@@ -506,13 +508,21 @@ class Ctx:
         if cd["dp"] is not None:
             attrs["definition_period"] = DateUnit(cd["dp"])
         if cd["end"] is not None:
-            attrs["end"] = dt.date.fromordinal(cd["end"]).isoformat()
+            attrs["end"] = dt.date.fromordinal(cd["end"]).isoformat() if cd["end"] else ""   # (0: declared empty)
         if cd["si"] is not None:
             attrs["set_input"] = self.si[cd["si"]]
         for an, fid in formula_attr_names(cd["formulas"]):
             attrs[an] = self.make_formula(fid)
-        for k, x in (cd.get("meta") or {}).items():       # label / reference / documentation / unit
-            attrs[k] = tuple(x["t"]) if isinstance(x, dict) else x
+        for k, x in (cd.get("meta") or {}).items():       # descriptive and behavioural attributes outside the model
+            if k == "set_input_none":
+                if cd["si"] is None:
+                    attrs["set_input"] = None           # declared, but falsy: inherited all the same
+            elif k == "calculate_output":
+                attrs[k] = self.co[x] if x else None
+            elif isinstance(x, dict):
+                attrs[k] = tuple(x["t"]) if "t" in x else x["d"]
+            else:
+                attrs[k] = x
         return attrs
 
     # -- operations
@@ -732,6 +742,15 @@ class Real(Ctx):
         if spiral is not None:
             sim.max_spiral_loops = spiral
         out = []
+        for name, y, vals in plan.get("long_inputs", []):        # a yearly amount given to a monthly variable
+            v = t.variables.get(name)
+            if v is None or str(getattr(v.definition_period, "value", v.definition_period)) != "month" \
+                    or len(vals) != COUNT.get(v.entity.key) or v.value_type not in (float, int):
+                continue
+            try:
+                sim.set_input(name, str(y), numpy.array(vals))
+            except Exception:
+                pass                                             # (no set_input rule: refused)
         for name, kind, y, m, vals in plan["inputs"]:
             v = t.variables.get(name)
             if v is None:
@@ -759,12 +778,41 @@ class Real(Ctx):
                 out.append(";".join(tok_of_value(x) for x in arr))
             except Exception as e:
                 out.append("ERR:" + type(e).__name__)
+        for name, y, m in plan.get("outputs", []):               # Simulation.calculate_output
+            v = t.variables.get(name)
+            if v is None:
+                out.append("ERR:VariableNotFoundError")
+                continue
+            dp = str(getattr(v.definition_period, "value", v.definition_period))
+            rule = "add" if v.calculate_output is self.co["add"] else "divide" if v.calculate_output is self.co["divide"] else None
+            period = output_period(rule, dp, y, m)
+            try:
+                arr = sim.calculate_output(name, period)
+                if hasattr(arr, "decode"):
+                    arr = arr.decode()
+                out.append(";".join(tok_of_value(x) for x in arr))
+            except Exception as e:
+                out.append("ERR:" + type(e).__name__)
         return out
 
 
 def meta_of(t):
-    """the descriptive attributes of every variable of a system"""
-    return {n: [v.label, v.reference, v.documentation, v.unit] for n, v in t.variables.items()}
+    """the attributes of every variable of a system that the heap model does not carry"""
+    from openfisca_core import simulations
+    co = {simulations.calculate_output_add: "add", simulations.calculate_output_divide: "divide", None: None}
+    return {n: {"label": v.label, "reference": v.reference, "documentation": v.documentation, "unit": v.unit,
+                "cerfa_field": v.cerfa_field, "calculate_output": co.get(v.calculate_output, "?"),
+                "is_period_size_independent": v.is_period_size_independent, "max_length": getattr(v, "max_length", None)}
+            for n, v in t.variables.items()}
+
+
+def output_period(rule, dp, y, m) -> str:
+    """the period a `calculate_output` request is made for: one the variable's rule has to convert"""
+    if rule == "add" and dp == "month":
+        return str(y)
+    if rule == "divide" and dp == "year":
+        return f"{y}-{m:02d}"
+    return str(y) if dp == "year" else f"{y}-{m:02d}"
 
 
 def stage_text(flag, prev, cur) -> str:
@@ -831,6 +879,8 @@ class Evaluator:
         dp = var["dp"]
         if dp != "eternity" and dp != period[0]:
             raise CalcErr("period mismatch")
+        if var["vt"] == "str" and (var.get("meta") or {}).get("max_length"):
+            raise Skip()              # fixed-width byte strings: what the engine makes of them is not C14's
         if var["neutralized"]:
             return self.default(var)
         key = (name, "eternity") if dp == "eternity" else (name,) + tuple(period)
@@ -915,6 +965,16 @@ class Evaluator:
 def evaluate(rules, params, fdefs, plan):
     """-> list of (tokens | 'absent' | 'ERR' | None (not decided), affected)"""
     inputs = {}
+    for name, y, vals in plan.get("long_inputs", []):
+        var = rules.get(name)
+        if var is None or var["dp"] != "month" or len(vals) != COUNT.get(var["entity"]) or var["vt"] not in ("float", "int"):
+            continue
+        if var["neutralized"] or var["si"] is None:
+            continue                  # ignored / refused: a monthly variable takes a year only through its rule
+        if var["end"] is not None and dt.date(y, 1, 1).toordinal() > var["end"]:
+            continue
+        for mm in range(1, 13):       # dispatch: the amount for every month; divide: an equal share
+            inputs[(name, "month", y, mm)] = list(vals) if var["si"] == "dispatch" else [Fraction(x, 12) for x in vals]
     for name, kind, y, m, vals in plan["inputs"]:
         var = rules.get(name)
         if var is None or var["dp"] != kind or len(vals) != COUNT.get(var["entity"]) or var["vt"] not in ("float", "int", "bool"):
@@ -934,6 +994,33 @@ def evaluate(rules, params, fdefs, plan):
         ev = Evaluator(rules, params, fdefs, inputs)
         try:
             vals = ev.value(name, period)
+            out.append((";".join(tok_of_value(x) for x in vals), ev.affected))
+        except CalcErr:
+            out.append(("ERR", ev.affected))
+        except Skip:
+            out.append((None, ev.affected))
+    for name, y, m in plan.get("outputs", []):
+        var = rules.get(name)
+        if var is None:
+            out.append(("ERR", False))
+            continue
+        rule = (var.get("meta") or {}).get("calculate_output")
+        ev = Evaluator(rules, params, fdefs, inputs)
+        try:
+            if var["vt"] not in ("float", "int", "bool") or (rule and var["vt"] == "bool"):
+                raise Skip()
+            if rule and var["dp"] == "eternity":
+                raise CalcErr("a constant variable is neither added nor divided")
+            if rule == "add" and var["dp"] == "month":
+                cols = [ev.value(name, ("month", y, mm)) for mm in range(1, 13)]
+                vals = [sum(c[i] for c in cols) for i in range(len(cols[0]))]
+            elif rule == "divide" and var["dp"] == "year":
+                import numpy
+                base = ev.value(name, ("year", y, 1))
+                vals = [Fraction(float(numpy.float32(float(x)) / numpy.float32(12))) if var["vt"] == "float"
+                        else Fraction(float(numpy.float64(int(x)) / 12)) for x in base]
+            else:
+                vals = ev.value(name, ("year", y, 1) if var["dp"] == "year" else ("month", y, m))
             out.append((";".join(tok_of_value(x) for x in vals), ev.affected))
         except CalcErr:
             out.append(("ERR", ev.affected))
